@@ -3,11 +3,15 @@
 import sys, tokenize, io, json
 
 
+TOKONLY = False
+
+
 def canon(src):
     try:
         data = src.encode('utf-8')
         toks = list(tokenize.tokenize(io.BytesIO(data).readline))
-        compile(data, '<c10>', 'exec')     # programs the reference does not accept are outside the claim
+        if not TOKONLY:
+            compile(data, '<c10>', 'exec')     # the stricter domain: programs the reference compiles
     except BaseException:
         return None
     out = []
@@ -46,4 +50,7 @@ def canon(src):
 
 if __name__ == '__main__':
     srcs = json.load(sys.stdin)
+    if srcs and srcs[0] == '\x00TOKONLY':
+        TOKONLY = True          # domain of the property as stated: programs the reference TOKENIZES without error (it need not compile them)
+        srcs = srcs[1:]
     json.dump([canon(s) for s in srcs], sys.stdout)
